@@ -511,6 +511,16 @@ pub fn check_step(cfg: &SpecCfg, obs: &StepObs, focus: &Focus) -> (Vec<Finding>,
                 }
             }
         }
+        if let Some((n, u, pw)) = &exp.reg_after {
+            if let Some(Some(pi)) = obs.post_infos.get(obs_actor) {
+                if obs.post_life[obs_actor] == Life::Live && (&pi.nick, &pi.name, &pi.password) != (n, u, pw) {
+                    out.push(Finding {
+                        sig: format!("{}:registration-data", verb),
+                        detail: format!("after {:?} the connection should remember (nick, user, password) = {:?} but holds {:?}", obs.act.render(), (n, u, pw), (&pi.nick, &pi.name, &pi.password)),
+                    });
+                }
+            }
+        }
         // a 001 must never appear where the Spec forbids completion, also when the
         // actor's other reply lines are not compared
         if exp.no_welcome && exp.actor_unchecked {
